@@ -400,7 +400,22 @@ def find_item(src, kind, name, within=None):
                     s = k - 1
                 else:
                     break
-            e = _item_end(toks, i)
+            if kind in ('const', 'static', 'type'):
+                # ends at the first ';' at depth 0 (initialisers may contain braces)
+                d = 0
+                e = i
+                while e < len(toks):
+                    x = toks[e]
+                    if x.kind == 'op' and x.text in OPEN:
+                        d += 1
+                    elif x.kind == 'op' and x.text in CLOSE:
+                        d -= 1
+                    elif x.kind == 'op' and x.text == ';' and d == 0:
+                        break
+                    e += 1
+                e += 1
+            else:
+                e = _item_end(toks, i)
             return toks[s].start, toks[e - 1].end
     raise SliceError("%s %s not found" % (kind, name))
 
